@@ -4,12 +4,13 @@ import Dtn7.Model.Dtlsr
 /-!
 Driver for C20. Node names are numbers (`dtn://n<k>/` ↦ `k`, the node itself is `0`).
 
-  tab <n> <T0> <J> <links> <known> <table> <index>
+  tab <n> <T0> <J> <links> <known> <table> <index> <flags>
       One recomputation of a real `DTLSR` instance. `links` = "-" or comma list `u>v:L` (live) /
       `u>v:<age>` (lost `age` ms before T0), read back from `peers` (u = 0) and `receivedData`
       (u ≥ 1; data stored under the node's own id is printed as `S>v:…`). `T0`/`T0+J` bracket the
       `DtnTimeNow()` inside `computeRoutingTable`. `known` = ids with received data, `table` = "-"
-      or `d>h,…`, `index` = `indexNode`.
+      or `d>h,…`, `index` = `indexNode`, `flags` = "-" or inconsistencies between
+      `nodeIndex`, `indexNode` and `length`.
       Spec: ∃ now ∈ [T0, T0+J]: `checkTable` accepts Go's table on the graph (own links + received
       links, cost 0 | now − loss time) with a certificate from the driver's own Bellman–Ford.
       Correspondence: same domain as the model's table, every hop in the model's admissible set;
@@ -20,7 +21,9 @@ Driver for C20. Node names are numbers (`dtn://n<k>/` ↦ `k`, the node itself i
   ls <updates> <acc> <final>
       Link-state blocks `id@ts:peers` fed to `NotifyNewBundle` in this order; `acc` = one digit
       per update (did `receivedData` change); `final` = `receivedData` afterwards, sorted.
-  bc <sent0> <steps>      steps = `clas|sends;…`: successive forwarding attempts of one broadcast bundle
+  bc <sent0> <steps>      steps = `clas|sends;…`: successive forwarding runs of one broadcast bundle,
+      sends = `peer:ok|fail`; Spec `broadcastRunOk`: every run serves exactly the connected peers that
+      neither had the bundle (`sent0`) nor were served successfully before
   blk <own> <block>       the DTLSR block of the node's own broadcast vs. its `peers`
   fwd <table> <clas> <dest> <sends> <released>     a unicast bundle through `Core.forward`
   own up|down <peer> <ok>   after ReportPeerAppeared the own link is live (0); after
@@ -357,29 +360,39 @@ def parseSends (s : String) : Option (List (Nat × Bool)) :=
     | _ => none
 
 def handleBc (sent0 : List Nat) (steps : List (List Nat × List (Nat × Bool))) : String :=
-  let allSends := steps.flatMap fun s => s.2.map (·.1)
-  if (dedupNat allSends).length != allSends.length then
-    s!"specfail broadcast-sent-twice-to-a-peer sends={allSends}"
-  else if allSends.any sent0.contains then
-    s!"specfail broadcast-sent-to-a-peer-that-already-had-it sends={allSends}"
-  else
-    -- after every attempt each connected peer has been served (now or earlier)
-    let missed := (List.range steps.length).find? fun i =>
-      let upto := (steps.take (i + 1)).flatMap fun s => s.2.map (·.1)
-      !((steps.getD i ([], [])).1.all fun c => sent0.contains c || upto.contains c)
-    match missed with
-    | some i => s!"specfail broadcast-not-sent-to-every-peer step={i}"
-    | none =>
-      -- model, step by step
-      let rec go (sent : List Nat) : List (List Nat × List (Nat × Bool)) → Option String
-        | [] => none
-        | (clas, sends) :: rest =>
-          let r := filterCLAs sent clas
-          if sortNat r.1 != sortNat (sends.map (·.1)) then some s!"model={r.1} impl={sends.map (·.1)}"
-          else go r.2 rest
-      match go sent0 steps with
-      | some d => s!"diff bc {d}"
-      | none => "ok"
+  -- Spec, run by run: `succ` = peers served successfully so far, `failed` = peers with a failed
+  -- transmission so far (only used to name the failure class)
+  let rec spec (i : Nat) (succ failed : List Nat) :
+      List (List Nat × List (Nat × Bool)) → Option String
+    | [] => none
+    | (clas, sends) :: rest =>
+      let peers := sends.map (·.1)
+      if broadcastRunOk sent0 succ clas peers then
+        spec (i + 1) (succ ++ (sends.filter (·.2)).map (·.1)) (failed ++ (sends.filter (!·.2)).map (·.1)) rest
+      else
+        let cls :=
+          if peers.any fun p => peers.count p > 1 then "broadcast-sent-twice-to-a-peer-in-one-run"
+          else if peers.any succ.contains then "broadcast-sent-again-after-a-successful-transmission"
+          else if peers.any sent0.contains then "broadcast-sent-to-a-peer-that-already-had-it"
+          else if peers.any fun p => !clas.contains p then "broadcast-sent-to-a-peer-that-is-not-connected"
+          else if clas.any fun c => failed.contains c && !succ.contains c && !peers.contains c then
+            "broadcast-failed-peer-not-offered-again"
+          else "broadcast-not-sent-to-every-peer"
+        some s!"specfail {cls} run={i} clas={clas} sends={peers} served={succ} had={sent0}"
+  match spec 0 [] [] steps with
+  | some v => v
+  | none =>
+    -- model, run by run
+    let rec go (sent : List Nat) : List (List Nat × List (Nat × Bool)) → Option String
+      | [] => none
+      | (clas, sends) :: rest =>
+        let fails := (sends.filter (!·.2)).map (·.1)
+        let a := broadcastAttempt sent clas fails
+        if sortNat a.1 != sortNat (sends.map (·.1)) then some s!"model={a.1} impl={sends.map (·.1)}"
+        else go a.2 rest
+    match go sent0 steps with
+    | some d => s!"diff bc {d}"
+    | none => "ok"
 
 def handleFwd (table : Table) (clas : List Nat) (dest : Nat) (sends : List (Nat × Bool)) (rel : Bool) :
     String :=
@@ -400,12 +413,15 @@ def handleFwd (table : Table) (clas : List Nat) (dest : Nat) (sends : List (Nat 
 
 def handle (line : String) : String :=
   match fields line with
-  | ["tab", n, t0, j, links, known, table, index] =>
+  | ["tab", n, t0, j, links, known, table, index, flags] =>
     match n.toNat?, t0.toNat?, j.toNat?, (commaList links).mapM parseLink, parseNatList known,
           parsePairs table, parseNatList index with
     | some n, some t0, some j, some links, some known, some table, some index =>
       if links.any fun l => match l.age with | some a => a > t0 | none => false then "skip future-loss-time"
-      else handleTab n t0 j links known table index
+      else
+        let v := handleTab n t0 j links known table index
+        -- `flags`: the harness found nodeIndex / indexNode / length inconsistent with each other
+        if v == "ok" && flags != "-" then s!"diff index-structure {flags}" else v
     | _, _, _, _, _, _, _ => "skip parse"
   | ["lib", n, arcs, src, dest, res] =>
     match n.toNat?, (commaList arcs).mapM parseArc, src.toNat?, dest.toNat? with
